@@ -6,7 +6,7 @@ import json, os, shutil, glob, sys
 res = {}
 first = {}
 ORDER = ['results.jsonl', 'results2.jsonl', 'results3.jsonl', 'results4.jsonl', 'results5.jsonl', 'results6.jsonl', 'results7.jsonl', 'results9_final.jsonl',
-         'results_w3.jsonl', 'results_w3b.jsonl', 'results_w3c.jsonl', 'results_w3d.jsonl', 'results_zfinal2.jsonl', 'results_w4_first.jsonl', 'results_w4_zsecond.jsonl', 'results_w5_first.jsonl', 'results_w5_zsecond.jsonl', 'results_w6_first.jsonl', 'results_w6_zsecond.jsonl', 'results_w7_first.jsonl', 'results_w7_zsecond.jsonl']
+         'results_w3.jsonl', 'results_w3b.jsonl', 'results_w3c.jsonl', 'results_w3d.jsonl', 'results_zfinal2.jsonl', 'results_w4_first.jsonl', 'results_w4_zsecond.jsonl', 'results_w5_first.jsonl', 'results_w5_zsecond.jsonl', 'results_w6_first.jsonl', 'results_w6_zsecond.jsonl', 'results_w7_first.jsonl', 'results_w7_zsecond.jsonl', 'results_w8_first.jsonl', 'results_w8_zsecond.jsonl']
 # (chronological order of the evaluation runs; results_w3.jsonl was started before results_w3b.jsonl but finished after it)
 for f in sorted(glob.glob('/tmp/seed/results*.jsonl'), key=lambda f: (ORDER.index(os.path.basename(f)) if os.path.basename(f) in ORDER else len(ORDER), os.path.getmtime(f))):
     for l in open(f):
@@ -20,10 +20,10 @@ for sd in sorted(glob.glob('/tmp/seed/out_*/C*_*')):
     if not os.path.exists(sd + '/patch.diff') or not os.path.exists(sd + '/meta.json'):
         continue
     g = int(sd.split('out_')[1].split('/')[0])
-    wave = 7 if g > 80 else (6 if g > 70 else (5 if g > 50 else (4 if g > 40 else (3 if g > 30 else (2 if g > 10 else 1)))))
+    wave = 8 if g > 90 else (7 if g > 80 else (6 if g > 70 else (5 if g > 50 else (4 if g > 40 else (3 if g > 30 else (2 if g > 10 else 1))))))
     if sd not in res:
         continue   # not evaluated yet
-    name = {1: '', 2: 'w2_', 3: 'w3_', 4: 'w4_', 5: 'w5_', 6: 'w6_', 7: 'w7_'}[wave] + os.path.basename(sd)
+    name = {1: '', 2: 'w2_', 3: 'w3_', 4: 'w4_', 5: 'w5_', 6: 'w6_', 7: 'w7_', 8: 'w8_'}[wave] + os.path.basename(sd)
     dst = '/verif/seeded/' + name
     meta = json.load(open(sd + '/meta.json'))
     conf = json.load(open(sd + '/confirm.json')) if os.path.exists(sd + '/confirm.json') else None
